@@ -57,47 +57,62 @@ Proof.
 Qed.
 
 (* ---- unsigned integers: every WriteValue(uintN_t) ---- *)
-Definition dec1 (bytes rest : list N) := decode_ref (S (length (bytes ++ rest))) (bytes ++ rest).
+(* the reference decoder on bytes ++ rest with an arbitrary positive fuel: scalars, strings and headers do not consume fuel *)
+Definition decf (f : nat) (bytes rest : list N) := decode_ref (S f) (bytes ++ rest).
+(* ... and with the fuel of [decode] *)
+Definition dec1 (bytes rest : list N) := decf (length (bytes ++ rest)) bytes rest.
 
 Lemma be_bytes_1 v : v < 256 -> be_bytes 1 v = [v].
 Proof. intros H. cbn. rewrite N.mod_small by lia. reflexivity. Qed.
 
-Lemma wr_u8_ok v rest : v < 256 ->
-  dec1 (wr_u8 v) rest = Some (MInt (Z.of_N v), rest) /\ length (wr_u8 v) = shortest_int_len (Z.of_N v).
+Lemma wr_u8_okf f v rest : v < 256 ->
+  decf f (wr_u8 v) rest = Some (MInt (Z.of_N v), rest) /\ length (wr_u8 v) = shortest_int_len (Z.of_N v).
 Proof.
-  intros Hv. unfold dec1, wr_u8, shortest_int_len. destruct (128 <=? v) eqn:E.
+  intros Hv. unfold decf, wr_u8, shortest_int_len. destruct (128 <=? v) eqn:E.
   - rewrite <- (be_bytes_1 v Hv). cbn [app]. rewrite dec_CC. change 1 with (N.of_nat 1) at 1.
     rewrite dec_uint_bytes by (cbn; lia).
     split; [reflexivity|]. if_lia. cbn [length]. rewrite be_bytes_length. reflexivity.
   - cbn [app]. rewrite dec_fixpos by lia. split; [reflexivity|]. if_lia. reflexivity.
 Qed.
+Lemma wr_u8_ok v rest : v < 256 ->
+  dec1 (wr_u8 v) rest = Some (MInt (Z.of_N v), rest) /\ length (wr_u8 v) = shortest_int_len (Z.of_N v).
+Proof. exact (wr_u8_okf _ v rest). Qed.
 
+Lemma wr_u16_okf f v rest : v < 65536 ->
+  decf f (wr_u16 v) rest = Some (MInt (Z.of_N v), rest) /\ length (wr_u16 v) = shortest_int_len (Z.of_N v).
+Proof.
+  intros Hv. unfold wr_u16. destruct (255 <? v) eqn:E; [|apply (wr_u8_okf f); lia].
+  unfold decf, shortest_int_len. cbn [app]. rewrite dec_CD. change 2 with (N.of_nat 2) at 1.
+  rewrite dec_uint_bytes by (cbn; lia). split; [reflexivity|].
+  if_lia. cbn [length]. rewrite be_bytes_length. reflexivity.
+Qed.
 Lemma wr_u16_ok v rest : v < 65536 ->
   dec1 (wr_u16 v) rest = Some (MInt (Z.of_N v), rest) /\ length (wr_u16 v) = shortest_int_len (Z.of_N v).
+Proof. exact (wr_u16_okf _ v rest). Qed.
+
+Lemma wr_u32_okf f v rest : v < 4294967296 ->
+  decf f (wr_u32 v) rest = Some (MInt (Z.of_N v), rest) /\ length (wr_u32 v) = shortest_int_len (Z.of_N v).
 Proof.
-  intros Hv. unfold wr_u16. destruct (255 <? v) eqn:E; [|apply wr_u8_ok; lia].
-  unfold dec1, shortest_int_len. cbn [app]. rewrite dec_CD. change 2 with (N.of_nat 2) at 1.
+  intros Hv. unfold wr_u32. destruct (65535 <? v) eqn:E; [|apply (wr_u16_okf f); lia].
+  unfold decf, shortest_int_len. cbn [app]. rewrite dec_CE. change 4 with (N.of_nat 4) at 1.
   rewrite dec_uint_bytes by (cbn; lia). split; [reflexivity|].
   if_lia. cbn [length]. rewrite be_bytes_length. reflexivity.
 Qed.
-
 Lemma wr_u32_ok v rest : v < 4294967296 ->
   dec1 (wr_u32 v) rest = Some (MInt (Z.of_N v), rest) /\ length (wr_u32 v) = shortest_int_len (Z.of_N v).
+Proof. exact (wr_u32_okf _ v rest). Qed.
+
+Lemma wr_u64_okf f v rest : v < 18446744073709551616 ->
+  decf f (wr_u64 v) rest = Some (MInt (Z.of_N v), rest) /\ length (wr_u64 v) = shortest_int_len (Z.of_N v).
 Proof.
-  intros Hv. unfold wr_u32. destruct (65535 <? v) eqn:E; [|apply wr_u16_ok; lia].
-  unfold dec1, shortest_int_len. cbn [app]. rewrite dec_CE. change 4 with (N.of_nat 4) at 1.
+  intros Hv. unfold wr_u64. destruct (4294967295 <? v) eqn:E; [|apply (wr_u32_okf f); lia].
+  unfold decf, shortest_int_len. cbn [app]. rewrite dec_CF. change 8 with (N.of_nat 8) at 1.
   rewrite dec_uint_bytes by (cbn; lia). split; [reflexivity|].
   if_lia. cbn [length]. rewrite be_bytes_length. reflexivity.
 Qed.
-
 Lemma wr_u64_ok v rest : v < 18446744073709551616 ->
   dec1 (wr_u64 v) rest = Some (MInt (Z.of_N v), rest) /\ length (wr_u64 v) = shortest_int_len (Z.of_N v).
-Proof.
-  intros Hv. unfold wr_u64. destruct (4294967295 <? v) eqn:E; [|apply wr_u32_ok; lia].
-  unfold dec1, shortest_int_len. cbn [app]. rewrite dec_CF. change 8 with (N.of_nat 8) at 1.
-  rewrite dec_uint_bytes by (cbn; lia). split; [reflexivity|].
-  if_lia. cbn [length]. rewrite be_bytes_length. reflexivity.
-Qed.
+Proof. exact (wr_u64_okf _ v rest). Qed.
 
 (* ---- signed integers: every WriteValue(intN_t) ---- *)
 (* F09: a signed C++ type never uses the uint family, so these values are one format too wide *)
@@ -112,10 +127,10 @@ Proof.
   replace (z mod 256)%Z with (z + 256)%Z; [reflexivity|]. apply Z.mod_unique with (q := (-1)%Z); lia.
 Qed.
 
-Lemma wr_i8_ok z rest : (-128 <= z < 128)%Z ->
-  dec1 (wr_i8 z) rest = Some (MInt z, rest) /\ length (wr_i8 z) = shortest_int_len z.
+Lemma wr_i8_okf f z rest : (-128 <= z < 128)%Z ->
+  decf f (wr_i8 z) rest = Some (MInt z, rest) /\ length (wr_i8 z) = shortest_int_len z.
 Proof.
-  intros Hz. unfold dec1, wr_i8, shortest_int_len. destruct (-32 <=? z)%Z eqn:E.
+  intros Hz. unfold decf, wr_i8, shortest_int_len. destruct (-32 <=? z)%Z eqn:E.
   - cbn [app]. destruct (Z.ltb_spec z 0) as [Hneg|Hnn].
     + rewrite twos8_neg by lia. rewrite dec_fixneg by lia. rewrite Z2N.id by lia.
       replace (z + 256 - 256)%Z with z by lia. split; [reflexivity|]. if_lia. reflexivity.
@@ -127,42 +142,57 @@ Proof.
     rewrite dec_sint_bytes by (cbn; lia). split; [reflexivity|].
     if_lia. cbn [length]. rewrite be_bytes_length. reflexivity.
 Qed.
+Lemma wr_i8_ok z rest : (-128 <= z < 128)%Z ->
+  dec1 (wr_i8 z) rest = Some (MInt z, rest) /\ length (wr_i8 z) = shortest_int_len z.
+Proof. exact (wr_i8_okf _ z rest). Qed.
 
-Lemma wr_i16_ok z rest : (-32768 <= z < 32768)%Z ->
-  dec1 (wr_i16 z) rest = Some (MInt z, rest) /\
+Lemma wr_i16_okf f z rest : (-32768 <= z < 32768)%Z ->
+  decf f (wr_i16 z) rest = Some (MInt z, rest) /\
   (signed_not_shortest z = false -> length (wr_i16 z) = shortest_int_len z).
 Proof.
   intros Hz. unfold wr_i16. destruct ((z <? -128) || (127 <? z))%Z eqn:E.
-  - unfold dec1. cbn [app]. rewrite dec_D1. change 2 with (N.of_nat 2) at 1.
+  - unfold decf. cbn [app]. rewrite dec_D1. change 2 with (N.of_nat 2) at 1.
     change (twos 16 z) with (twos (8 * N.of_nat 2) z).
     rewrite dec_sint_bytes by (cbn; lia). split; [reflexivity|].
     unfold signed_not_shortest, shortest_int_len. intros Hd. cbn [length]. rewrite be_bytes_length. if_lia. reflexivity.
-  - destruct (wr_i8_ok z rest) as [H1 H2]; [lia|]. split; [exact H1 | intros _; exact H2].
+  - destruct (wr_i8_okf f z rest) as [H1 H2]; [lia|]. split; [exact H1 | intros _; exact H2].
 Qed.
+Lemma wr_i16_ok z rest : (-32768 <= z < 32768)%Z ->
+  dec1 (wr_i16 z) rest = Some (MInt z, rest) /\
+  (signed_not_shortest z = false -> length (wr_i16 z) = shortest_int_len z).
+Proof. exact (wr_i16_okf _ z rest). Qed.
 
-Lemma wr_i32_ok z rest : (-2147483648 <= z < 2147483648)%Z ->
-  dec1 (wr_i32 z) rest = Some (MInt z, rest) /\
+Lemma wr_i32_okf f z rest : (-2147483648 <= z < 2147483648)%Z ->
+  decf f (wr_i32 z) rest = Some (MInt z, rest) /\
   (signed_not_shortest z = false -> length (wr_i32 z) = shortest_int_len z).
 Proof.
   intros Hz. unfold wr_i32. destruct ((z <? -32768) || (32767 <? z))%Z eqn:E.
-  - unfold dec1. cbn [app]. rewrite dec_D2. change 4 with (N.of_nat 4) at 1.
+  - unfold decf. cbn [app]. rewrite dec_D2. change 4 with (N.of_nat 4) at 1.
     change (twos 32 z) with (twos (8 * N.of_nat 4) z).
     rewrite dec_sint_bytes by (cbn; lia). split; [reflexivity|].
     unfold signed_not_shortest, shortest_int_len. intros Hd. cbn [length]. rewrite be_bytes_length. if_lia. reflexivity.
-  - apply wr_i16_ok. lia.
+  - apply (wr_i16_okf f). lia.
 Qed.
+Lemma wr_i32_ok z rest : (-2147483648 <= z < 2147483648)%Z ->
+  dec1 (wr_i32 z) rest = Some (MInt z, rest) /\
+  (signed_not_shortest z = false -> length (wr_i32 z) = shortest_int_len z).
+Proof. exact (wr_i32_okf _ z rest). Qed.
 
-Lemma wr_i64_ok z rest : (-9223372036854775808 <= z < 9223372036854775808)%Z ->
-  dec1 (wr_i64 z) rest = Some (MInt z, rest) /\
+Lemma wr_i64_okf f z rest : (-9223372036854775808 <= z < 9223372036854775808)%Z ->
+  decf f (wr_i64 z) rest = Some (MInt z, rest) /\
   (signed_not_shortest z = false -> length (wr_i64 z) = shortest_int_len z).
 Proof.
   intros Hz. unfold wr_i64. destruct ((z <? -2147483648) || (2147483647 <? z))%Z eqn:E.
-  - unfold dec1. cbn [app]. rewrite dec_D3. change 8 with (N.of_nat 8) at 1.
+  - unfold decf. cbn [app]. rewrite dec_D3. change 8 with (N.of_nat 8) at 1.
     change (twos 64 z) with (twos (8 * N.of_nat 8) z).
     rewrite dec_sint_bytes by (cbn; lia). split; [reflexivity|].
     unfold signed_not_shortest, shortest_int_len. intros Hd. cbn [length]. rewrite be_bytes_length. if_lia. reflexivity.
-  - apply wr_i32_ok. lia.
+  - apply (wr_i32_okf f). lia.
 Qed.
+Lemma wr_i64_ok z rest : (-9223372036854775808 <= z < 9223372036854775808)%Z ->
+  dec1 (wr_i64 z) rest = Some (MInt z, rest) /\
+  (signed_not_shortest z = false -> length (wr_i64 z) = shortest_int_len z).
+Proof. exact (wr_i64_okf _ z rest). Qed.
 
 (* the defect class is exact: inside it the signed writers are one format too wide *)
 Lemma wr_i64_not_shortest z : (-9223372036854775808 <= z < 9223372036854775808)%Z ->
@@ -182,23 +212,31 @@ Example wr_i16_200 : wr_i16 200 = [0xD1; 0x00; 0xC8] /\ shortest_int_len 200 = 2
 Proof. split; vm_compute; reflexivity. Qed.
 
 (* ---- floats: CA / CB + big-endian IEEE bits, for every bit pattern ---- *)
-Lemma wr_f32_ok bits rest : bits < 2 ^ 32 -> dec1 (wr_f32 bits) rest = Some (MF32 bits, rest).
+Lemma wr_f32_okf f bits rest : bits < 2 ^ 32 -> decf f (wr_f32 bits) rest = Some (MF32 bits, rest).
 Proof.
-  intros H. unfold dec1, wr_f32. cbn [app]. rewrite dec_CA.
+  intros H. unfold decf, wr_f32. cbn [app]. rewrite dec_CA.
+  rewrite take_app_n by (rewrite be_bytes_length; reflexivity). cbn [bind].
+  rewrite be_val_bytes by (cbn; lia). reflexivity.
+Qed.
+Lemma wr_f32_ok bits rest : bits < 2 ^ 32 -> dec1 (wr_f32 bits) rest = Some (MF32 bits, rest).
+Proof. exact (wr_f32_okf _ bits rest). Qed.
+Lemma wr_f64_okf f bits rest : bits < 2 ^ 64 -> decf f (wr_f64 bits) rest = Some (MF64 bits, rest).
+Proof.
+  intros H. unfold decf, wr_f64. cbn [app]. rewrite dec_CB.
   rewrite take_app_n by (rewrite be_bytes_length; reflexivity). cbn [bind].
   rewrite be_val_bytes by (cbn; lia). reflexivity.
 Qed.
 Lemma wr_f64_ok bits rest : bits < 2 ^ 64 -> dec1 (wr_f64 bits) rest = Some (MF64 bits, rest).
-Proof.
-  intros H. unfold dec1, wr_f64. cbn [app]. rewrite dec_CB.
-  rewrite take_app_n by (rewrite be_bytes_length; reflexivity). cbn [bind].
-  rewrite be_val_bytes by (cbn; lia). reflexivity.
-Qed.
+Proof. exact (wr_f64_okf _ bits rest). Qed.
 
-Lemma wr_nil_ok rest : dec1 wr_nil rest = Some (MNil, rest).
+Lemma wr_nil_okf f rest : decf f wr_nil rest = Some (MNil, rest).
 Proof. reflexivity. Qed.
-Lemma wr_bool_ok b rest : dec1 (wr_bool b) rest = Some (MBool b, rest).
+Lemma wr_nil_ok rest : dec1 wr_nil rest = Some (MNil, rest).
+Proof. exact (wr_nil_okf _ rest). Qed.
+Lemma wr_bool_okf f b rest : decf f (wr_bool b) rest = Some (MBool b, rest).
 Proof. destruct b; reflexivity. Qed.
+Lemma wr_bool_ok b rest : dec1 (wr_bool b) rest = Some (MBool b, rest).
+Proof. exact (wr_bool_okf _ b rest). Qed.
 
 (* ---- strings, binaries, array and map headers ---- *)
 Definition str_body (n : N) (d : list N) := bind (take n d) (fun '(s, r) => Some (MStr s, r)).
@@ -257,9 +295,9 @@ Proof.
   cbn; lia.
 Qed.
 
-Lemma wr_str_ok s rest :
+Lemma wr_str_okf f s rest :
   match wr_str s with
-  | Some out => dec1 out rest = Some (MStr s, rest) /\
+  | Some out => decf f out rest = Some (MStr s, rest) /\
                 length out = (shortest_str_header (N.of_nat (length s)) + length s)%nat
   | None => 2 ^ 32 <= N.of_nat (length s)
   end.
@@ -267,8 +305,19 @@ Proof.
   unfold wr_str. pose proof (wr_str_header_ok (N.of_nat (length s))) as H.
   destruct (wr_str_header (N.of_nat (length s))) as [h|]; [|exact H].
   destruct H as [_ [Hl Hd]]. split.
-  - unfold dec1. rewrite <- app_assoc. rewrite Hd. unfold str_body. rewrite take_app. reflexivity.
+  - unfold decf. rewrite <- app_assoc. rewrite Hd. unfold str_body. rewrite take_app. reflexivity.
   - rewrite app_length, Hl. reflexivity.
+Qed.
+Lemma wr_str_ok s rest :
+  match wr_str s with
+  | Some out => dec1 out rest = Some (MStr s, rest) /\
+                length out = (shortest_str_header (N.of_nat (length s)) + length s)%nat
+  | None => 2 ^ 32 <= N.of_nat (length s)
+  end.
+Proof.
+  destruct (wr_str s) as [out|] eqn:E.
+  - pose proof (wr_str_okf (length (out ++ rest)) s rest) as H. rewrite E in H. exact H.
+  - pose proof (wr_str_okf 0 s rest) as H. rewrite E in H. exact H.
 Qed.
 
 Lemma wr_bin_header_ok n :
@@ -390,10 +439,10 @@ Proof. intros H. unfold twos. rewrite Z.mod_small by exact H. reflexivity. Qed.
 Lemma twos32_nonneg z : (0 <= z < 2 ^ 32)%Z -> twos 32 z = Z.to_N z.
 Proof. intros H. unfold twos. rewrite Z.mod_small by exact H. reflexivity. Qed.
 
-Lemma wr_ts_ok secs nanos rest : ts_in_range secs nanos ->
-  dec1 (wr_ts secs nanos) rest = Some (MExt 255 (wr_ts_payload secs nanos), rest).
+Lemma wr_ts_okf f secs nanos rest : ts_in_range secs nanos ->
+  decf f (wr_ts secs nanos) rest = Some (MExt 255 (wr_ts_payload secs nanos), rest).
 Proof.
-  intros [Hs Hn]. unfold dec1, wr_ts, wr_ts_payload.
+  intros [Hs Hn]. unfold decf, wr_ts, wr_ts_payload.
   assert (P34 : (2 ^ 34 = 17179869184)%Z) by reflexivity.
   assert (P63 : (2 ^ 63 = 9223372036854775808)%Z) by reflexivity.
   assert (P64 : (2 ^ 64 = 18446744073709551616)%Z) by reflexivity.
@@ -439,6 +488,9 @@ Proof.
     + apply ext_body_ok. lia.
     + rewrite app_length, !be_bytes_length. reflexivity.
 Qed.
+Lemma wr_ts_ok secs nanos rest : ts_in_range secs nanos ->
+  dec1 (wr_ts secs nanos) rest = Some (MExt 255 (wr_ts_payload secs nanos), rest).
+Proof. exact (wr_ts_okf _ secs nanos rest). Qed.
 
 (* inside [0, 2^34) seconds the layout is the spec's; outside (timestamp 96) the two fields are swapped *)
 Lemma wr_ts_spec_outside secs nanos : (0 <= secs < 2 ^ 34)%Z ->
